@@ -44,12 +44,25 @@ MODELS = [('pit', 'pit1d', {}), ('pit', 'pit2d', {}), ('pit', 'pit1d_frozen', {'
 def cases(tier, seed):
     out = []
     for method, name, kw in MODELS:
+        if tier == 'quick' and (name in ('pit1d_frozen', 'sn_twice') or kw.get('gumbel_softmax')):
+            continue      # thorough only
         for train in (True, False):
             for full in (False, True):
                 if tier == 'quick' and full and (name in ('pit2d', 'pit1d_frozen', 'mps_b', 'sn_twice') or kw.get('disable_sampling')):
                     continue
-                out.append({'method': method, 'model': name, 'kw': kw, 'train': train, 'full_cost': full, 'tier': tier})
+                # the BFS is sharded by its first letter (pool parallelism only; closure is then per shard, which is sound but redundant)
+                for first in _first_letters(method, kw) + [None]:
+                    out.append({'method': method, 'model': name, 'kw': kw, 'train': train, 'full_cost': full, 'tier': tier, 'first': first})
     return out
+
+
+def _first_letters(method, kw):
+    ops = ['export', 'summary', 'forward', 'step', 'mode', 'get_cost_a', 'get_cost_b', 'spec_other']
+    if method == 'pit':
+        ops.append('export_nobn')
+    if kw.get('per_channel'):
+        ops.remove('export')
+    return ops
 
 
 def _make(case, seed):
@@ -254,7 +267,13 @@ def run_case(case, seed):
     nontrivial = set()
     evals = [0]
 
+    first = case.get('first', 'ALL')
+
     def alphabet(hist):
+        if not hist and first != 'ALL':
+            if first is None:
+                return []
+            return ['to_eval' if case['train'] else 'to_train'] if first == 'mode' else [first]
         spec = 'orig'
         for op in hist:
             if op == 'spec_other':
